@@ -148,6 +148,23 @@ def run(ctx: Ctx):
         cases.append({"ver": ver, "ovr": {}, "cur": {k: v for k, v in d.items()}, "unreadable": [], "rejected": []})
         cases.append({"ver": ver, "ovr": {}, "cur": {k: v + 9 for k, v in d.items() if v < 60000}, "unreadable": [], "rejected": sorted(d)})
         cases.append({"ver": ver, "ovr": {}, "cur": {}, "unreadable": sorted(d), "rejected": []})
+        # systematic single-setting family: every setting of the version's schema disabled once (NCP reporting a larger value), and
+        # overridden once with the smallest and the largest candidate the schema accepts (NCP reporting something else)
+        import voluptuous as vol
+        for name in keys:
+            base = d.get(name, 8)
+            cases.append({"ver": ver, "ovr": {name: None}, "cur": dict({k: v for k, v in d.items()}, **{name: min(65535, base + 20)}),
+                          "unreadable": [], "rejected": []})
+            ok = []
+            for v in CANDIDATES:
+                try:
+                    schema({name: v})
+                    ok.append(v)
+                except vol.Invalid:
+                    pass
+            for v in sorted({ok[0], ok[-1]}) if ok else ():
+                cases.append({"ver": ver, "ovr": {name: v}, "cur": dict({k: x for k, x in d.items()}, **{name: min(65535, v + 3)}),
+                              "unreadable": [], "rejected": []})
         for _ in range(n):
             cases.append(gen_case(ver, rng, schema, keys))
     traces = pmap(run_case, cases, chunksize=16)
@@ -155,7 +172,7 @@ def run(ctx: Ctx):
     ctx.distinct_nontrivial = len({str(c) for c in cases})
     ctx.rule = ("per protocol version 4..14: reported values drawn below/equal/above/unreadable per setting, 0-5 overrides drawn from the "
                 "version's whole schema (values accepted by the schema, or disabled), buffer-count overrides, 20% rejected settings; plus "
-                "all-equal, all-above-all-rejected and all-unreadable cases; distinct = distinct case record")
+                "all-equal, all-above-all-rejected and all-unreadable cases, and every setting of the schema disabled once / overridden with the smallest and largest accepted candidate; distinct = distinct case record")
     ctx.add_sample(traces[len(traces) // 2][0])
     ctx.validate_traces("Trace_ConfigWrite", traces, invariants=INVS, metas=cases, label="config write", sig=sig)
     ctx.exhaustive = False
